@@ -42,6 +42,26 @@ check(
     "DESIGN.md section 5 (C10)",
 )
 
+check(
+    "C11",
+    "exploration",
+    "Seeded exploration of the product lattice of cadences (data, coordinates, velocities, forces, nonadiabatic, XYZ, screen, checkpoint; values 0, 1..11, = run length, > run length) x run length x molecule-id subsets (incl. empty) x engines x 0-2 crash+resume points. Each configuration is run by the real engines; every stream's labels are compared with a small executable reference model (initial snapshot + multiples of its own cadence, nothing else, absent when 0) and every stored row is compared exactly with the row of the same label in a dense (all cadences = 1) twin run of the same seed.",
+    "Assumes output cadences must not influence the dynamics (exact equality with the dense twin). Transition-density stream not checked (outside the statement). Stub electronic structure except a stated real-driver fraction that supplies the nonadiabatic stream.",
+    "deterministic simulation: append-only output logs over simulated time (also across resumed incarnations) checked against a reference model and a dense twin run",
+    "mdsim",
+    "DESIGN.md section 5 (C11)",
+)
+
+check(
+    "C13",
+    "exploration",
+    "Seeded histories of prior RNG consumption, seeds, temperatures (incl. 0 K), COM-removal modes and strides, user velocity fields, padded batches and all ground-state engines; _zero_com, initialize_velocity and the integrator step are wrapped so that every application is observed. Exact oracles: same seed => bit-identical files whatever was drawn before; seed+1 => different velocities; step-0 temperature = target (1e-10) under the documented degrees of freedom; P (and L when requested) vanish and kinetic energy is restored after every removal; padding atoms never move; user velocities are the step-0 row.",
+    "Configurations the library refuses loudly (n_dof <= 0, COM removal at rest) are outside the domain; linear molecules are never combined with angular removal (manual: not auto-detected).",
+    "deterministic simulation: simulator-owned random stream (prior-draw histories, seeds) and per-application invariants observed through method wrapping",
+    "mdsim",
+    "DESIGN.md section 5 (C13)",
+)
+
 PENDING = {}
 
 
